@@ -47,6 +47,15 @@ def run(tier, seed, replay=None):
         ready = sorted(rnd.sample(range(n), rnd.randint(1, n)))
         jobs.append(("divide", {"seed": seed * 1000 + k, "geom_seed": seed + k % 3, "n": n, "ready": ready, "threads": rnd.choice([1, 2, 3, 4, 8, 16]),
                                 "crit_sleep_us": rnd.choice([500, 2000, 4000]), "read_sleep_us": rnd.choice([0, 300, 1500])}))
+    # adversarial schedules: every dividing cell on its own thread (or two threads with a static partition), the cells started in
+    # REVERSE order of their list positions, so that cells complete in descending order -- anything that relies on the completion
+    # order being the list order shows
+    for n, ready, th in ((4, [0, 1, 3], 4), (6, [0, 1, 3], 2), (5, [0, 2, 4], 8), (3, [0, 1, 2], 3)) if tier == "quick" else \
+            [(rnd.randint(3, 8), None, rnd.choice([2, 3, 4, 8, 16])) for _ in range(16)]:
+        if ready is None:
+            ready = sorted(rnd.sample(range(n), rnd.randint(2, n)))
+        jobs.append(("divide", {"seed": seed * 1000 + 500 + len(jobs), "geom_seed": seed + len(jobs) % 3, "n": n, "ready": ready, "threads": th,
+                                "crit_sleep_us": 500, "read_sleep_us": 0, "reverse_step_us": 40000}))
     # ---- (b) exceptions
     for k in range(4 if tier == "quick" else 30):
         n = rnd.randint(2, 9)
